@@ -7,7 +7,12 @@ chk = importlib.util.module_from_spec(spec)
 sys.argv = ["check"]
 spec.loader.exec_module(chk)
 need_ollama = False
+allparts = []
 for pid, cfg in chk.PROPS.items():
+    allparts.append((pid, cfg))
+    for i, part in enumerate(cfg.get("parts", [])):
+        allparts.append(("%s.%s" % (pid, part.get("label", str(i))), part))
+for pid, cfg in allparts:
     if cfg["kind"] == "gotest":
         race = cfg.get("race")
         races = {bool(race)} if not isinstance(race, dict) else {bool(v) for v in race.values()}
